@@ -12,6 +12,6 @@ CONSTANTS
   Eager = FALSE
   Hist = FALSE
   EmitMode = "none"
-INVARIANTS TypeOK OrderPreservedKF BatchBound AcceptedAreSurvivors QueueIsSuffix LossCounted LossExact SentCounted DrainCompleteKF
+INVARIANTS TypeOK OrderPreserved BatchBound AcceptedAreSurvivors QueueIsSuffix LossCounted LossExact SentCounted DrainComplete
 PROPERTIES DropOldest
 CHECK_DEADLOCK FALSE
